@@ -6,10 +6,12 @@ from conc_engine import *
 MODULE = "Feox.Props.C20"
 THEOREMS = ['Feox.C20.inflight_never_freed', 'Feox.C20.held_is_leaked', 'Feox.C20.unheld_is_released',
             'Feox.C20.mark_complete_counts_once', 'Feox.C20.bit_is_last_mark', 'Feox.C20.extent_pin_guard_balanced',
-            'Feox.Conc.InFlight.good_step', 'Feox.Conc.InFlight.good_run']
+            'Feox.Conc.InFlight.good_step', 'Feox.Conc.InFlight.good_run',
+            'Feox.C20.tree_slot_no_use_after_free', 'Feox.C20.tree_slot_load_tied_to_guard', 'Feox.C20.immediate_destruction_is_unsafe', 'Feox.Conc.Epoch.step_inv']
 
 ASSUME = [
-    "machine-level memory safety of the compiled unsafe blocks (crossbeam-epoch reclamation behind TreeSlot, AlignedBuffer, io_uring submission) is outside the Lean model: the theorems cover the ownership protocols those blocks rely on",
+    "machine-level memory safety of the compiled unsafe blocks (AlignedBuffer, io_uring submission, the crossbeam-epoch library itself) is outside the Lean model: the theorems cover the ownership protocols those blocks rely on",
+    "tools/gen_epoch.py (translator, regenerated on this run) reads the guard and the disposal of the replaced object in TreeSlot::store and the lifetime signature of TreeSlot::load; crossbeam-epoch's guarantee (an object handed to defer_destroy under a pinned guard is destroyed only after every guard pinned at that moment is dropped or repinned) and the borrow checker's enforcement of the 'g lifetime are taken as given",
     "AddressSanitizer (std not instrumented) is a search tool over the schedules, races, fault plans and crash workloads of the other engines; a clean run is not a proof",
     "the O_DIRECT / AlignedBuffer and io_uring paths are not executed in this sandbox (no O_DIRECT; the ring is disabled for determinism)",
 ]
@@ -53,6 +55,12 @@ def asan_runs(ctx, quick):
 
 
 def run(ctx):
+    from checklib import sh, VERIF
+    r = sh(["python3", os.path.join(VERIF, "tools", "gen_epoch.py")])
+    ctx.log(r.stdout.strip() or r.stderr.strip())
+    if r.returncode != 0:
+        violation(ctx, "the reclamation translator could not read TreeSlot: " + (r.stdout + r.stderr)[-400:],
+                  "# translator tools/gen_epoch.py failed; theorem Feox.C20.tree_slot_no_use_after_free cannot be re-checked\n" + r.stdout + r.stderr, no_input=True, tag="epoch")
     quick = ctx.tier == "quick"
     extra = ('cases=0', 'inflight=%d' % (400 if quick else 20000), 'scanrace=%d' % (4 if quick else 100))
     def hook(ctx2, cov):
